@@ -524,9 +524,8 @@ func (w *world) kill(id string) string {
 		}
 		time.Sleep(time.Millisecond)
 	}
-	if w.tm.IsExecuting(id) {
-		return "still-executing" // the task did not die, or died and is still shown as executing
-	}
+	// the task did not die within the deadline, or died and is still shown as executing: the listing that
+	// follows shows it (executing although no longer started => SPECFAIL of the executing-iff clause)
 	return fmt.Sprintf("ok ntx=%d", w.st.count())
 }
 
